@@ -70,7 +70,10 @@ META = {
             "flag, blocks / super / macros = current mode); (d) C02_main: the property stated for the ENGINE (structure Engine: "
             "render / renderBlock / eval) with the gap as the named hypothesis Faithful E (validated by the byte-equal streams), "
             "the ties as theorems; modelEngine_faithful shows the hypothesis satisfiable. When the Lean driver cannot be built "
-            "(broken table / transient) the oracles that need the model to decide the fragment are skipped instead of guessing.",
+            "(broken table / transient) the oracles that need the model to decide the fragment are skipped instead of guessing. "
+            "The class predicates of class-only callables (forward / select / pieces / normal) are stronger than the property: a "
+            "violation is reported as a mismatch with the class table (no failing input) — the failing-input oracle for a callable "
+            "result is the property itself: a Safe string holding a metacharacter that only unmarked / escaped data carried.",
     "design_ref": "DESIGN.md §3 C02",
     "level_note": "Trusted: Lean kernel; hand transcription of utils.rs/output.rs/argtypes.rs/filters.rs/pycompat.rs safety "
                   "branches and of the vm's mode/capture/import/extends handling into MJ/Model/Safe.lean and "
@@ -159,27 +162,36 @@ def check_call(r, cj, c, enc, cls, site, m=None, res=None, no_model=False):
                 r.oracle_failure(cj, f"`{c['expr']}` with arguments {pat} returned a Safe string holding a "
                                      f"metacharacter that only unmarked / escaped data carried: {t!r}", site)
                 break
+    def class_violation(msg):
+        # a class predicate (forward / select / pieces / normal) is STRONGER than the property: a callable that
+        # starts to hand on or create Safe strings without a data-tainted metacharacter in them (e.g. `title`
+        # preserving the bit of its input) keeps the property.  Such a change is a mismatch with the class table
+        # (reported once per callable, without a failing input); the property itself is the taint oracle above.
+        key = f"class:{c['name']}"
+        if key not in r.extra.setdefault("class_mismatches", {}):
+            r.extra["class_mismatches"][key] = msg
+            r.broken.append(msg + " — the safety class of the callable in MJ/Model/Safe.lean no longer describes it")
     if m is not None:
         if m[0] != "OK" or m[1] != enc:
             r.model_disagreement(cj, res, "\t".join(m))
     elif cls == "forward":
         bad = [t for sf, t in leaves if sf and t not in in_safe]
         if bad:
-            r.oracle_failure(cj, f"class forward violated: `{c['expr']}` ({pat}) created Safe string {bad[0]!r}", site)
+            class_violation(f"class forward violated: `{c['expr']}` ({pat}) created Safe string {bad[0]!r}")
     elif cls == "select":
         in_all = set(arg_leaves)
         bad = [(sf, t) for sf, t in leaves if (sf, t) not in in_all]
         if bad:
-            r.oracle_failure(cj, f"class select violated: `{c['expr']}` ({pat}) returned string {bad[0][1]!r} "
-                                 f"(safe={bad[0][0]}) that is no argument leaf with that bit", site)
+            class_violation(f"class select violated: `{c['expr']}` ({pat}) returned string {bad[0][1]!r} "
+                            f"(safe={bad[0][0]}) that is no argument leaf with that bit")
     elif cls == "pieces":
         bad = [t for sf, t in leaves if sf and not any(t in u for u in in_safe)]
         if bad:
-            r.oracle_failure(cj, f"class pieces violated: `{c['expr']}` ({pat}) created Safe string {bad[0]!r}", site)
+            class_violation(f"class pieces violated: `{c['expr']}` ({pat}) created Safe string {bad[0]!r}")
     elif cls == "normal":
         bad = [t for sf, t in leaves if sf]
         if bad:
-            r.oracle_failure(cj, f"class normal violated: `{c['expr']}` ({pat}) returned Safe string {bad[0]!r}", site)
+            class_violation(f"class normal violated: `{c['expr']}` ({pat}) returned Safe string {bad[0]!r}")
     elif cls in ("markup", "mapped", "modelled", "bool"):
         pass
     elif not no_model:
